@@ -5,6 +5,7 @@ import (
 	"context"
 	"errors"
 	"path"
+	"strings"
 	"time"
 
 	"github.com/hack-pad/hackpadfs"
@@ -311,6 +312,10 @@ func (fs *FS) Rename(oldname, newname string) error {
 		return err
 	}
 
+	if oldname == "." || strings.HasPrefix(newname, oldname+"/") {
+		// a directory cannot be moved into itself
+		return &hackpadfs.LinkError{Op: "rename", Old: oldname, New: newname, Err: hackpadfs.ErrInvalid}
+	}
 	if newErr == nil {
 		// a directory cannot replace a regular file
 		return &hackpadfs.LinkError{Op: "rename", Old: oldname, New: newname, Err: hackpadfs.ErrNotDir}
